@@ -27,7 +27,10 @@
   ## 2. arity of nested calls
   `wellPrec_calls_legal` — in a well-formed tree EVERY call (at any depth) names a builtin and has a legal argument
   count with `&` exactly where the builtin wants it; `parse_ok_calls_legal` — hence whatever compiles has only legal
-  calls.  The converse (a wrong count inside any context is reported as an arity error) is in `Proofs/C02CArity.lean`.
+  calls.  Conversely `nested_call_arity` (proved in `Proofs/C02CArity.lean`, `…2`, `…3` by an error version of the parser's
+  completeness proof): a call whose count is outside the signature, in ANY context of the grammar and nested to any
+  depth, with everything to its left well formed and anything to its right, makes `Compile` fail with the arity
+  category; `arity_dichotomy` puts the two directions side by side.
 
   ## 3. `merge`, `find_first` / `find_last` with a negative start, `to_string`
   see the sections below.
@@ -35,6 +38,7 @@
 import Jmes.Proofs.C02CLemmas
 import Jmes.Properties.C02B
 import Jmes.Properties.C20B
+import Jmes.Proofs.C02CArity3
 namespace Jmes.C02C
 open Jmes
 open Jmes.C02 (JType jsonType)
@@ -941,6 +945,55 @@ example : (calls (.call ⟨.unquotedIdentifier, Grammar.Ex.bs "length"⟩
 /-- a tree with a nested two-argument `abs` is not well formed -/
 example : ¬ WellPrec (.multiList [.call ⟨.unquotedIdentifier, Grammar.Ex.bs "abs"⟩
     [Grammar.Ex.idt "a", Grammar.Ex.idt "b"]]) := by decide +kernel
+
+/-! ### the converse: a wrong count in ANY context is reported as an arity error
+
+  `C02CArity.Bad .invalidFunctionCall b p t` (`Proofs/C02CArity3.lean`, purely syntactic: `WellPrec`, `llevel`, `rlevel`,
+  counts) says that `t` is well formed up to and including everything to the left of ONE call whose argument count is
+  outside the signature of its builtin (no argument at all; fewer than `min` / more than `max` plain arguments; `sort_by`
+  & co or `map` with a count other than two) — the call sitting in any position of the grammar: operand of a prefix or
+  binary operator, of `.`, element of `[…]` / `.[…]`, member of `{…}` / `.{…}`, argument of another call (plain or `&`),
+  binding or body of `let`, condition of `[?…]`, right-hand side of any of the five projections, nested to any depth.
+  What follows the call is arbitrary. -/
+
+/-- **an illegal argument count, nested anywhere, is an arity error**: `Compile` fails with the arity category, and
+    `Search` reports it whatever the data -/
+theorem nested_call_arity {t : PTree} (h : C02CArity.Bad .invalidFunctionCall false 1 t) {e : Bytes}
+    (hl : lexAll e = (Grammar.flatten t ++ [Pratt.endTok], none)) :
+    compile e = .error .invalidFunctionCall ∧ ∀ d, search e d = .err [Cat.arity] := by
+  have := C02CArity.nested_arity h hl
+  exact ⟨this, fun d => by simp only [search, this]; rfl⟩
+
+/-- the token-level form: tokens on which the parser fails with the arity error (`C02CArity.Fails`, e.g. by
+    `C02CArity.bad_fails`) followed by ANY tokens -/
+theorem nested_call_arity_tokens {toks rest : List Token} (h : C02CArity.Fails .invalidFunctionCall false 1 toks)
+    {e : Bytes} (hl : lexAll e = (toks ++ rest, none)) : compile e = .error .invalidFunctionCall :=
+  C02CArity.nested_arity_tokens h hl
+
+/-- the two directions side by side, for one text: if it is the printing of a tree that is `Bad` at a call it does not
+    compile (arity); if it compiles, it is the printing of a well-formed tree, all of whose calls are legal -/
+theorem arity_dichotomy {e : Bytes} :
+    (∀ t, C02CArity.Bad .invalidFunctionCall false 1 t → lexAll e = (Grammar.flatten t ++ [Pratt.endTok], none) →
+      compile e = .error .invalidFunctionCall) ∧
+    (∀ n, compile e = .ok n → ∃ t, WellPrec t ∧ lexAll e = (Grammar.flatten t ++ [Pratt.endTok], none) ∧
+      erase t = n ∧ ∀ c ∈ calls t, Legal c) :=
+  ⟨fun _ h hl => (nested_call_arity h hl).1, fun _ h => parse_ok_calls_legal h⟩
+
+/-- `a.abs(b,c)` and `[abs()]` -/
+example : search (Grammar.Ex.bs "a.abs(b,c)") .null = .err [Cat.arity] :=
+  (nested_call_arity (t := .dotId (Grammar.Ex.idt "a")
+      (.call ⟨.unquotedIdentifier, Grammar.Ex.bs "abs"⟩ [Grammar.Ex.idt "b", Grammar.Ex.idt "c"]))
+    (.dotIdR (C02CArity.leftOK_top rfl (by decide) (by decide) (by decide)) (by decide)
+      (.fixedCount (mn := 1) (mx := 1) (mk := callN .abs) rfl rfl
+        (fun a ha => by
+          simp only [List.mem_cons, List.not_mem_nil, or_false] at ha
+          rcases ha with rfl | rfl <;> rfl)
+        (Or.inr (Nat.lt_succ_self 1))))
+    (by decide +kernel)).2 .null
+example : search (Grammar.Ex.bs "[abs()]") .null = .err [Cat.arity] :=
+  (nested_call_arity (t := .multiList [.call ⟨.unquotedIdentifier, Grammar.Ex.bs "abs"⟩ []])
+    (.multiList (pre := []) (post := []) (fun _ h => by cases h)
+      (.noArgs (spec := .fixed 1 1 (callN .abs)) rfl rfl)) (by decide +kernel)).2 .null
 
 end nested
 
